@@ -47,7 +47,9 @@ def main():
         todo.append((pid, name, diff, tier))
     for meta in sorted(glob.glob(os.path.join(VERIF, "seeded", "*", "meta.json"))):
         m = json.load(open(meta)); d = os.path.dirname(meta)
-        todo.append((m["property"], "seeded/" + os.path.basename(d), os.path.join(d, "patch.diff"), tier))
+        # "checks": the checks expected to catch the change when it is not the seed's own property's check (see meta "note")
+        for pid in m.get("checks", [m["property"]]):
+            todo.append((pid, "seeded/" + os.path.basename(d), os.path.join(d, "patch.diff"), tier))
     if argv:
         todo = [t for t in todo if t[0] in argv or "%s/%s" % (t[0], t[1]) in argv]
     with ThreadPoolExecutor(jobs) as ex:
